@@ -16,6 +16,7 @@ RULE = ("cases = (generated table with one of 9 last-column shapes, subset of 1.
         "order, mode in {owning mode, sql}): every single clause x every last-column shape x both modes exhaustively, every ordered "
         "pair of compatible clauses, then seeded random subsets/orders; clause values are varied (formats, literals, numbers, "
         "column lists). Non-trivial = every case (each compares a with/without pair); distinct = distinct (DDL, mode).")
+RULE += (" Added after seeded defects: identifier-valued clause slots take tricky-vocabulary names, delimited operands and (after TABLESPACE) keyword-shaped words.")
 ASSUMPTIONS = ["only clause combinations compatible within one dialect; order restricted where the dialect's own grammar fixes it (hql, oracle, mssql, bigquery, postgres, ibm_db2)",
                "calibrated placements: partitioned_by / partition_by / comment / tablespace are common fields (top level in both modes); snowflake retention/tracking options and spark USING live in table_properties in both modes",
                "a ',' element inside a bigquery CLUSTER BY column list is ignored"]
